@@ -348,6 +348,7 @@ func c08PFD(res *vResult) {
 			continue
 		}
 		table := map[string][]*mFlow{} // the application table the agent must hold
+		var judgeOff map[string]bool   // ids whose content is not judged (odd application accepted, see below)
 		seq := uint32(10)
 		var trace []string
 		nsess := 0
@@ -377,33 +378,79 @@ func c08PFD(res *vResult) {
 					next[id] = fls
 					apps = append(apps, vPFDApp{ID: id, Flows: texts})
 				}
-				reject := rng.Intn(4) == 0
+				reject := rng.Intn(3) == 0
+				variant := rng.Intn(5)
 				raw := p.pfdMgmt(seq, apps)
 				if reject {
-					// an application whose PFD contents carry no flow description
+					// one more application, placed after the well-formed ones, that makes the request unacceptable:
 					rm, err := vParseRaw(raw)
 					if err == nil {
-						bad := &vRawIE{Type: 58, Grouped: true, Kids: []*vRawIE{
-							{Type: 24, Payload: []byte("appX")},
-							{Type: 59, Grouped: true, Kids: []*vRawIE{{Type: 61, Payload: []byte{0x00, 0x00}}}},
-						}}
+						var bad *vRawIE
+						flow := []byte("permit out ip from any to assigned")
+						fd := append([]byte{0x01, 0x00, 0x00, byte(len(flow))}, flow...)
+						switch variant {
+						case 0: // PFD contents without flow description
+							bad = &vRawIE{Type: 58, Grouped: true, Kids: []*vRawIE{{Type: 24, Payload: []byte("appX")},
+								{Type: 59, Grouped: true, Kids: []*vRawIE{{Type: 61, Payload: []byte{0x00, 0x00}}}}}}
+						case 1: // Application ID's PFDs without Application ID
+							bad = &vRawIE{Type: 58, Grouped: true, Kids: []*vRawIE{
+								{Type: 59, Grouped: true, Kids: []*vRawIE{{Type: 61, Payload: fd}}}}}
+						case 2: // the second of two PFD contents lacks the flow description (the application is half built)
+							bad = &vRawIE{Type: 58, Grouped: true, Kids: []*vRawIE{{Type: 24, Payload: []byte("app1")},
+								{Type: 59, Grouped: true, Kids: []*vRawIE{{Type: 61, Payload: fd}, {Type: 61, Payload: []byte{0x00, 0x00}}}}}}
+						case 3: // PFD contents whose flow-description length runs past the IE (the decoding library panics on it)
+							bad = &vRawIE{Type: 58, Grouped: true, Kids: []*vRawIE{{Type: 24, Payload: []byte("app2")},
+								{Type: 59, Grouped: true, Kids: []*vRawIE{{Type: 61, Payload: []byte{0x01, 0x00, 0x00, 0x20, 0x61, 0x62}}}}}}
+						default: // PFD context that is not a grouped IE at all
+							bad = &vRawIE{Type: 58, Grouped: true, Kids: []*vRawIE{{Type: 24, Payload: []byte("app3")},
+								{Type: 59, Payload: []byte{0xff}}}}
+						}
 						rm.IEs = append(rm.IEs, bad)
 						raw = rm.encode()
 					}
 				}
-				m := c01Request(p, raw, seq)
-				res.event("pfd_requests", 1)
-				if m == nil {
-					res.violate("C08.R1", "pfd-request-unanswered", "a well-formed PFD Management Request got no response in 3 transmissions over 12 s (the handler died on it)", map[string]interface{}{"apps": fmt.Sprint(apps), "trace": append([]string{}, trace...)})
-					break
+				var m message.Message
+				if reject {
+					// a malformed request may be dropped instead of rejected: one transmission, then a barrier
+					ex := p.exchange(raw)
+					if !ex.BarrierOK {
+						res.violate("C08.R1", "wedged-by-pfd-request", fmt.Sprintf("after a PFD Management Request with a malformed application (variant %d) the association no longer answers heartbeats", variant), map[string]interface{}{"trace": append([]string{}, trace...)})
+						break
+					}
+					for _, r := range ex.Replies {
+						if r.Sequence() == seq {
+							m = r
+						}
+					}
+					res.event("pfd_requests", 1)
+					res.event("pfd_requests_malformed", 1)
+					if m == nil {
+						trace = append(trace, fmt.Sprintf("pfd %v malformed variant=%d -> dropped", apps, variant))
+						res.distinct(fmt.Sprintf("pfd-malformed/v%d/dropped", variant))
+						continue // not accepted: the table must be what it was
+					}
+					res.distinct(fmt.Sprintf("pfd-malformed/v%d/cause=%d", variant, vDecodeReply(m).Cause))
+				} else {
+					m = c01Request(p, raw, seq)
+					res.event("pfd_requests", 1)
+					if m == nil {
+						res.violate("C08.R1", "pfd-request-unanswered", "a well-formed PFD Management Request got no response in 3 transmissions over 12 s (the handler died on it)", map[string]interface{}{"apps": fmt.Sprint(apps), "trace": append([]string{}, trace...)})
+						break
+					}
 				}
 				acc := vDecodeReply(m).Cause == ie.CauseRequestAccepted
-				trace = append(trace, fmt.Sprintf("pfd %v reject-injected=%v -> accepted=%v", apps, reject, acc))
+				trace = append(trace, fmt.Sprintf("pfd %v reject-injected=%v variant=%d -> accepted=%v", apps, reject, variant, acc))
 				if acc && reject {
-					res.note("a PFD request with an application lacking a flow description was accepted")
-				}
-				if acc {
+					// accepted although one application was unacceptable: then the table is the request's, with whatever the
+					// agent made of the odd application (not judged: those ids are compared only when the model knows them)
+					res.note(fmt.Sprintf("a PFD request with a malformed application (variant %d) was accepted", variant))
+					odd := map[int]string{0: "appX", 2: "app1", 3: "app2", 4: "app3"}[variant]
+					delete(next, odd)
 					table = next
+					judgeOff = map[string]bool{odd: true}
+				} else if acc {
+					table = next
+					judgeOff = nil
 				}
 				continue
 			}
@@ -422,6 +469,9 @@ func c08PFD(res *vResult) {
 				break
 			}
 			acc := vDecodeReply(m).Cause == ie.CauseRequestAccepted
+			if judgeOff[id] {
+				continue
+			}
 			fls, known := table[id]
 			trace = append(trace, fmt.Sprintf("est app=%s known=%v -> accepted=%v", id, known, acc))
 			w := map[string]interface{}{"trace": append([]string{}, trace...)}
